@@ -169,6 +169,7 @@ package circuitbreaker
 //@   ensures cfg: result.maxRequests == (settings.MaxRequests == 0 ? 1 : settings.MaxRequests)
 //@             && result.successThreshold == (settings.SuccessThreshold == 0 ? 1 : settings.SuccessThreshold)
 //@             && result.failureThreshold == (settings.FailureThreshold == 0 ? 5 : settings.FailureThreshold)
+//@   ensures durations: result.interval == (settings.Interval == 0 ? 60000000000 : settings.Interval) && result.timeout == (settings.Timeout == 0 ? 60000000000 : settings.Timeout)
 
 //@ func (*CircuitBreaker).State
 //@   props C07 C12
